@@ -37,11 +37,12 @@ func hashCheckers(p *core.Prog) []*ssa.Function {
 func c13(c *Ctx) {
 	p, r := c.P, c.R
 	r.Technique = "must-pass-through (cut) checks of the hash-link gate chain inside the proof walker (per loop iteration) and of the final gates in the node/bytecode validators; provenance of the root (oracle header for the content's block hash) and of what reaches the store; structural check that each traversal case consumes the nibbles it compared"
-	r.Explanation = "Decides: (R1) the hash comparer returns nil only under bytes.Equal(node hash, expected); the proof walker succeeds only for a non-empty proof whose first node passed the comparer against the root argument, and in every loop iteration the carried node is replaced by the next proof element only after decoding the carried node, traversing it with the carried remaining path and the comparer succeeding on (next element, reference returned by that traversal); the carried path becomes exactly the traversal's remainder; the walk succeeds only after the loop ran out of proof elements (no early exit to a success return, so surplus nodes are decoded and linked too); (R2) the trie-node validator returns nil only under len(remaining) == 0 and the comparer succeeding on (last node, key's node hash), with the walker applied to (root, key path, content proof); the bytecode validator only under account code hash == key code hash for the account proven by the walker under the key's address hash, the account being the value the traversal of the last proof node yields for the remaining address path; every root argument derives from the oracle's header for the content's own block hash (header binding is C02.R3) and the storage-trie root from the proven account; oracle and decode errors stop validation; unknown selectors fail; (R3) the state store writes only the last proof element (re-hashed and compared with the key's node hash) or the code (hashed and compared with the key's code hash), nothing else from the proof; (R4) traversal: the branch case indexes with path[0] and continues with path[1:], the extension case compares every key nibble with the path and continues with path[len(key):], the leaf case requires the remaining path to equal the key prefix and hands the path back unconsumed (what the walker's progress test relies on to tell a leaf's value from a child reference). Not decided: soundness over all tries; panics on malformed nodes are C01's."
+	r.Explanation = "Decides: (R1) the hash comparer returns nil only under bytes.Equal(node hash, expected); the proof walker succeeds only for a non-empty proof whose first node passed the comparer against the root argument, and in every loop iteration the carried node is replaced by the next proof element only after decoding the carried node, traversing it with the carried remaining path and the comparer succeeding on (next element, reference returned by that traversal); the carried path becomes exactly the traversal's remainder; the walk succeeds only after the loop ran out of proof elements (no early exit to a success return, so surplus nodes are decoded and linked too); (R2) the trie-node validator returns nil only under len(remaining) == 0 and the comparer succeeding on (last node, key's node hash), with the walker applied to (root, key path, content proof); the bytecode validator only under account code hash == key code hash for the account proven by the walker under the key's address hash, the account being the value the traversal of the last proof node yields for the remaining address path; every root argument derives from the oracle's header for the content's own block hash (header binding is C02.R3) and the storage-trie root from the proven account; oracle and decode errors stop validation; unknown selectors fail; (R3) the state store writes only the last proof element (re-hashed and compared with the key's node hash) or the code (hashed and compared with the key's code hash), nothing else from the proof; (R4) traversal: the branch case indexes with path[0] and continues with path[1:], the extension case compares every key nibble with the path and continues with path[len(key):], the leaf case requires the remaining path to equal the key prefix and hands the path back unconsumed (what the walker's progress test relies on to tell a leaf's value from a child reference). (R3.validated-before-store) the state network writes a (key, item) pair only after ValidateContent of that very pair returned nil. Not decided: soundness over all tries; panics on malformed nodes are C01's."
 	r.Assumptions = []string{"keccak256 collision resistance", "trie node decoding (go-ethereum derived) is faithful"}
 	r.Floor("R1.hash-link", 8)
 	r.Floor("R2.final-gates", 9)
 	r.Floor("R3.store-writes", 6)
+	r.Floor("R3.validated-before-store", 2)
 	r.Floor("R4.traversal", 4)
 
 	sp := p.SSAPkg("state")
@@ -659,6 +660,12 @@ func c13(c *Ctx) {
 		})
 	}
 	r.Count("state_store_puts", nPut)
+	// the consumer of the validator: what the state network receives is handed to the store only
+	// after the validator accepted this very (key, item) pair
+	{
+		n := networkStoresOnlyValidated(c, "R3.validated-before-store", "state")
+		r.Check(n >= 1, "R3.validated-before-store", "state network store writes", "-", fmt.Sprintf("%d write(s) of received content inspected", n), "the state network no longer writes received content through PortalProtocol.Put: the hand-off from validation to the store is not recognisable")
+	}
 
 	// ---- R4 traversal
 	var T *ssa.Function
